@@ -3,7 +3,7 @@ NEXT Next
 CONSTANTS
   Part = "bin"
   MaxDim = 4
-  NReal = 5
+  NReal = 6
   NCplx = 3
   Big = TRUE
 INVARIANT InvOutcomeDomain
